@@ -48,23 +48,21 @@ Definition dst_in (l : list key) (k : key) : bool :=
   existsb (fun x => if snd k =? -1 then fst x =? fst k else key_eqb x k) l.
 
 Section Run.
-  Variable sd : side.
-  Variable fx : bool.
   Variable compat : ep -> bool.
 
-  (* the model (fx = false: the code as it is) against the observations *)
+  (* the model against the observations *)
   Fixpoint model_items (s : st) (l : list item) : bool :=
     match l with
     | [] => true
-    | IA a :: t => model_items (fst (step sd fx compat s a)) t
+    | IA a :: t => model_items (fst (step compat s a)) t
     | IRead o :: t =>
         let (s1, o') := read s in
-        status_eqb o o' && model_items (process fx compat s1) t
-    | IList ks :: t => keys_eqb ks (keys (matched s)) && model_items (process fx compat s) t
+        status_eqb o o' && model_items (process compat s1) t
+    | IList ks :: t => keys_eqb ks (keys (matched s)) && model_items (process compat s) t
     | IDst alive ks :: t =>
         forallb (dst_in (wire_dsts alive s)) ks &&
         forallb (fun k => existsb (fun x => dst_in [x] k || key_eqb x k) ks) (wire_dsts alive s) &&
-        model_items (process fx compat s) t
+        model_items (process compat s) t
     end.
 
   (* the property on the observations *)
@@ -86,20 +84,11 @@ Section Run.
 End Run.
 
 Definition C16_model_ok (c : C16_case) : bool :=
-  model_items (c_side c) false (compat_of c) st0 (c_items c).
+  model_items (compat_of c) st0 (c_items c).
 
 Definition C16_oracle_ok (c : C16_case) : bool :=
   oracle_items (compat_of c) ideal0 (c_items c).
 
-(* classes 1..3 first (they break the counts), class 4 (stale proxy) otherwise *)
-Definition C16_known (c : C16_case) : N :=
-  let a := acts_of (c_items c) in
-  match first_class (compat_of c) false ideal0 a with
-  | 0%N => first_class (compat_of c) true ideal0 a
-  | k => k
-  end.
-
-(* the same comparison against the model of the patched code (used when the proposed patch is
-   applied to a scratch copy of the crate; not part of the check of the unchanged tree) *)
-Definition C16_patched_model_ok (c : C16_case) : bool :=
-  model_items (c_side c) true (compat_of c) st0 (c_items c).
+(* no known defect class (the four classes of the first version are fixed: commits 63bcd2c,
+   34a7046, 6603216, 9eb0989) *)
+Definition C16_known (c : C16_case) : N := 0%N.
